@@ -44,15 +44,58 @@ class Pick(Suite):
             if rng.random() < 0.3:  # duplicates and equal-score rankings
                 D = D + [[list(b) for b in r] for r in rng.sample(D, 1)]
             cases.append({"one": rng.random() < 0.5, "s": pick_scheme(rng), "D": D})
+        # names that contain the separators of the textual form of a ranking: two different rankings can then print alike
+        # (a memo or a de-duplication keyed on str(ranking) would confuse them)
+        for _ in range(120 if tier == "quick" else 1500):
+            n = rng.randint(4, 6)
+            perm = list(range(n))
+            rng.shuffle(perm)
+            names = {perm[0]: "a", perm[1]: "b", perm[2]: rng.choice(["a}, {b", "a, b", "b}, {a"])}
+            for k, e in enumerate(perm[3:]):
+                names[e] = ["c", "d", "c}, {d"][k]
+            D = []
+            for _ in range(rng.randint(2, 5)):
+                D.append(gen.random_ranking(rng, list(range(n)), 1.0, rng.choice([1.0, 1.0, 0.6])))
+            # the look-alike of a ranking: the odd name swapped with the pair of plain names it imitates
+            look = []
+            for r in D[:2]:
+                flat = [e for b in r for e in b]
+                if len(flat) == len(r):      # a permutation
+                    i0, i1, i2 = flat.index(perm[0]), flat.index(perm[1]), flat.index(perm[2])
+                    if abs(i0 - i1) == 1 and i2 not in (i0, i1):
+                        q = flat[:]
+                        lo = min(i0, i1)
+                        pair = [q[lo], q[lo + 1]]
+                        rest = [e for e in q if e not in pair and e != perm[2]]
+                        # rebuild: put the odd name where the pair was and the pair where the odd name was
+                        new = []
+                        for e in q:
+                            if e == pair[0]:
+                                new.append(perm[2])
+                            elif e == pair[1]:
+                                continue
+                            elif e == perm[2]:
+                                new.extend(pair)
+                            else:
+                                new.append(e)
+                        look.append([[e] for e in new])
+            D = D + look
+            if rng.random() < 0.5:
+                D = D + [[list(b) for b in D[0]]] * rng.randint(1, 2)
+            rng.shuffle(D)
+            cases.append({"one": rng.random() < 0.5, "s": pick_scheme(rng), "D": D, "names": [names[i] for i in range(n)]})
         return cases
 
     def run(self, case):
-        ds = Dataset.from_raw_list([[set(b) for b in r] for r in case["D"]])
+        names = case.get("names")
+        fwd = (lambda e: names[e]) if names else (lambda e: e)
+        back = (lambda v: names.index(v)) if names else (lambda v: v)
+        ds = Dataset.from_raw_list([[{fwd(e) for e in b} for b in r] for r in case["D"]])
         sc = ScoringScheme(case["s"])
-        out = {"D": gen.observe(ds), "complete": bool(ds.is_complete)}
+        out = {"D": [[[back(v) for v in b] for b in r] for r in gen.observe(ds)], "complete": bool(ds.is_complete)}
         try:
             cons = PickAPerm().compute_consensus_rankings(ds, sc, case["one"])
-            out["cons"] = [[[e.value for e in b] for b in r.buckets] for r in cons.consensus_rankings]
+            out["cons"] = [[[back(e.value) for e in b] for b in r.buckets] for r in cons.consensus_rankings]
             out["score"] = to_units(cons.kemeny_score)
         except Exception as e:
             out["err"] = exc_class(e)
@@ -71,6 +114,7 @@ class Pick(Suite):
     def stats(self, case, out, acc):
         k = ("complete" if out["complete"] else "incomplete") + (":refused" if "err" in out else ":ok")
         acc[k] = acc.get(k, 0) + 1
+        acc["names_with_separators"] = acc.get("names_with_separators", 0) + int(bool(case.get("names")))
         if "cons" in out:
             acc["several_returned"] = acc.get("several_returned", 0) + int(len(out["cons"]) > 1)
 
